@@ -152,7 +152,12 @@ PATHS = [(None, None), ("/", "/"), ("/a b", "/a%20b"), ("/a;b", "/a%3Bb"), ("/é
          ("/p,q=r", "/p,q=r"), ("/x%3By", "/x%3By")]
 DOMAINS = [(None, None), ("example.com", "example.com"), (".example.com", "example.com"),
            ("example.com:80", "example.com"), ("bücher.example", "xn--bcher-kva.example"),
-           ("localhost", "localhost")]
+           ("localhost", "localhost"),
+           # non-ASCII label directly before the port, all labels non-ASCII, leading dot + IDN + port, upper case
+           # (seed C13-4a); A-labels written by hand
+           ("münchen:8080", "xn--mnchen-3ya"), ("例え.テスト:443", "xn--r8jz45g.xn--zckzah"),
+           (".bücher.münchen:80", "xn--bcher-kva.xn--mnchen-3ya"), ("MÜNCHEN", "xn--mnchen-3ya"),
+           ("shop.münchen", "shop.xn--mnchen-3ya"), ("..example.com:8080", "example.com")]
 MAX_AGES = [(None, None), (0, "0"), (60, "60"), (timedelta(minutes=2, microseconds=7), "120"),
             # boundary values (seed C13-3b): zero in every spelling, sub-second, negative
             (timedelta(0), "0"), (timedelta(milliseconds=500), "0"), (-1, "-1")]
@@ -189,7 +194,7 @@ def expected_attrs(dom, exp, age, secure, httponly, path, ss, part):
 def attr_cases(tier):
     quick = tier != "thorough"
     paths = range(5) if quick else range(len(PATHS))
-    doms = range(5) if quick else range(len(DOMAINS))
+    doms = range(len(DOMAINS))
     exps = (0, 1, 2, 6) if quick else range(len(EXPIRES))
     sss = range(4) if quick else range(len(SAMESITES))
     vals = ATTR_VALUES[:4] if quick else ATTR_VALUES
@@ -828,7 +833,7 @@ def run_r2_unit(unit, R, tier):
                   "header": sync_problem(1, 0, 0, 0)[1]})
     elif kind == "r2resp":
         pi = unit[1]
-        for di in range(len(DOMAINS) if T else 5):
+        for di in range(len(DOMAINS)):
             for se, ho, pa in itertools.product((False, True), repeat=3):
                 for si in range(len(SAMESITES) if T else 4):
                     for op in ("delete", "set", "set+delete"):
@@ -934,9 +939,9 @@ def finalize(R, tier):
     need |= {"sec:True", "sec:False", "ho:True", "ho:False", "part:True", "part:False"}
     if tier == "thorough":
         need |= {"plane:%d" % p for p in range(17)}
-        need |= {f"path:{i}" for i in range(len(PATHS))} | {f"dom:{i}" for i in range(len(DOMAINS))}
+        need |= {f"path:{i}" for i in range(len(PATHS))}
         need |= {f"exp:{i}" for i in range(len(EXPIRES))} | {f"ss:{i}" for i in range(len(SAMESITES))}
-    need |= {f"age:{i}" for i in range(len(MAX_AGES))}
+    need |= {f"age:{i}" for i in range(len(MAX_AGES))} | {f"dom:{i}" for i in range(len(DOMAINS))}
     need |= {"r2:" + k for k in R2} | {"sync:explicit", "sync:clock", "resp:delete", "resp:set", "resp:set+delete",
                                         "msz:0", "msz:1", "msz:4093", "samesite:refused", "attrs-sync", "scope:sent",
                                         "scope:withheld", "pairs", "sweepx"}
